@@ -17,7 +17,10 @@ static void catalogue_sweep(const uint64_t* Ns, size_t nN, unsigned seeds_small,
     for (int native = 1; native >= 0; native--) {
       env_t* env = 0;  // created lazily: only if this process owns a case of this (N, dispatch)
       const unsigned seeds = N <= 256 ? seeds_small : seeds_large;
-      for (int oi = 0; oi < N_CAT_OPS; oi++) {
+      for (int oq = 0; oq < N_CAT_OPS; oq++) {
+        // every other dimension walks the catalogue backwards: which of two related entry points is the first one a process calls
+        // for a dimension (and so creates whatever they share) must not matter
+        const int oi = (ni & 1) ? N_CAT_OPS - 1 - oq : oq;
         const opdef_t* o = &OPS[oi];
         if (!native && (o->flags & (OPF_NTT120 | OPF_AVX))) continue;  // generic dispatch: module/table API only
         if (!native && (o->flags & OPF_KERNEL)) continue;
@@ -272,4 +275,7 @@ void run_C11(void) {
     ops_lifecycle_case("C11 objects", LKM_ALL, (rep % 4) == 3 ? DISP_GENERIC : DISP_NATIVE, 160, 0, rep, "lifecycle_uses");
   for (unsigned rep = 0; rep < (G.thorough ? 12u : 6u); rep++)
     ops_lifecycle_case("C11 objects", LKM_BBC | LKM_BAA | LKM_BBB | LKM_REIM_MUL, DISP_NATIVE, 0, (G.thorough && rep < 3) ? 66000 : 300 + 57 * (int)rep, rep, "lifecycle_uses");
+  // several threads creating, using and destroying their own modules / tables at the same time
+  for (unsigned rep = 0; rep < (G.thorough ? 60u : 8u); rep++)
+    ops_concurrent_lifecycle_case("C11 objects", LKM_ALL, (rep % 4) == 3 ? DISP_GENERIC : DISP_NATIVE, rep & 1 ? 8 : 4, 120, rep, "concurrent_lifecycle_uses");
 }
